@@ -262,7 +262,7 @@ func (c *compiler) identity(y *Identity) error {
 		if err != nil {
 			return err
 		}
-		identity, found := m.Identities()[ident]
+		identity, found := lookupIdentity(m, ident)
 		if !found {
 			return errors.New(SchemaPath(y) + " - " + baseId + " identity not found")
 		}
@@ -347,7 +347,7 @@ func (c *compiler) compileType(y *Type, parent Leafable, isUnion bool) error {
 				if err != nil {
 					return err
 				}
-				identity, found := m.Identities()[ident]
+				identity, found := lookupIdentity(m, ident)
 				if !found {
 					return errors.New(SchemaPath(parent) + " - " + base + " identity not found")
 				}
@@ -446,6 +446,20 @@ func (c *compiler) inheritFromTypedef(parent Leafable, tdef *Typedef) {
 	if parent.Units() == "" {
 		parent.setUnits(tdef.Units())
 	}
+}
+
+// a module and its submodules share one namespace of identities (RFC7950 Sec 5.1): what a
+// submodule names without a prefix may be defined in the module or in another submodule of
+// it, and the module holds the identities of them all
+func lookupIdentity(m *Module, ident string) (*Identity, bool) {
+	if identity, found := m.Identities()[ident]; found {
+		return identity, true
+	}
+	if main := DefiningModule(m); main != nil && main != m {
+		identity, found := main.Identities()[ident]
+		return identity, found
+	}
+	return nil, false
 }
 
 // RFC7950 Sec 7.6.1, 7.7.2: the default of the type is the default of a leaf that is not
